@@ -39,6 +39,7 @@ def generate_footprint():
     p = subprocess.run(["go", "build", "-o", exe, "."], cwd=os.path.join(vh.VERIF, "scanner"), env=env, capture_output=True, text=True)
     if p.returncode != 0:
         raise vh.BuildError("scanner: " + p.stdout + p.stderr)
+    os.makedirs(os.path.join(vh.VERIF, "coq", "Generated"), exist_ok=True)       # ignored by git: absent in a fresh checkout
     out = os.path.join(vh.VERIF, "coq", "Generated", "Footprint.v")
     p = subprocess.run([exe, "/repo/libvore", out], capture_output=True, text=True)
     if p.returncode != 0:
